@@ -20,6 +20,7 @@ import Snmp.Model.Disco
 import Snmp.Model.Conc
 import Snmp.Model.Ber
 import Snmp.Model.Emit
+import Snmp.Model.Usm
 open Lean Snmp
 
 namespace Driver
@@ -558,6 +559,60 @@ def emitOp (j : Json) : Except String Json := do
     | none => pure Json.null
   | .ok v => emitV3 v r
 
+/-! ### USM -/
+def optBytesOfJson (j : Json) (k : String) : Except String (Option Bytes) :=
+  match j.getObjVal? k with
+  | .ok Json.null => pure none
+  | .ok v => do pure (some (← bytesOfJson v))
+  | .error _ => pure none
+
+def credsOfJson (j : Json) : Except String Usm.Creds := do
+  pure ⟨← bytesOfJson (← j.getObjVal? "user"), ← optBytesOfJson j "auth", ← optBytesOfJson j "priv"⟩
+
+/-- crypto functions as oracle tables supplied by the harness (computed with hashlib / the plug-in) -/
+def oracleCrypto (j : Json) : Except String Usm.Crypto := do
+  let mac ← optBytesOfJson j "mac"
+  let dec ← optBytesOfJson j "dec"
+  let cipher ← optBytesOfJson j "cipher"
+  let salt ← optBytesOfJson j "salt"
+  pure { mac := fun _ _ => mac.getD [], loc := fun pw eid => pw ++ [256] ++ eid,
+         enc := fun _ _ _ _ _ => (cipher.getD [], salt.getD []), dec := fun _ _ _ _ _ _ => dec }
+
+def pduToJson (p : Spec.Pdu) : Json :=
+  Json.mkObj [("tag", toJson p.tag), ("rid", toJson p.requestId), ("a", toJson p.a), ("b", toJson p.b),
+    ("vbs", toJson (p.varbinds.map vbToJson))]
+
+def usmIncoming (j : Json) : Except String Json := do
+  let c ← credsOfJson (← j.getObjVal? "creds")
+  let cr ← oracleCrypto j
+  let m ← j.getObjVal? "msg"
+  let msg : Spec.V3Msg := {
+    msgId := ← getInt m "msg_id", maxSize := ← getInt m "max_size", flags := ← getNat m "flags", securityModel := ← getInt m "sec_model",
+    engineId := ← bytesOfJson (← m.getObjVal? "engine_id"), boots := ← getInt m "boots", time := ← getInt m "time",
+    user := ← bytesOfJson (← m.getObjVal? "user"), authParams := ← bytesOfJson (← m.getObjVal? "auth"),
+    privParams := ← bytesOfJson (← m.getObjVal? "priv"), dataTag := ← getNat m "data_tag", data := ← bytesOfJson (← m.getObjVal? "data") }
+  let im : Usm.InMsg := ⟨msg, ← optBytesOfJson j "zeroed"⟩
+  match Usm.processIncoming cr c im with
+  | .ok s => pure (toJson (#[toJson "ok", Json.mkObj [("ctx_engine", toJson (toHex s.contextEngineId)),
+      ("ctx_name", toJson (toHex s.contextName)), ("pdu", pduToJson s.pdu)]] : Array Json))
+  | .error e => pure (toJson (#[toJson "error", errToJson e] : Array Json))
+
+def usmOutgoing (j : Json) : Except String Json := do
+  let c ← credsOfJson (← j.getObjVal? "creds")
+  let cr ← oracleCrypto j
+  let d ← j.getObjVal? "disco"
+  let disco : Usm.Disco := ⟨← bytesOfJson (← d.getObjVal? "engine_id"), ← getInt d "boots", ← getInt d "time"⟩
+  let q ← j.getObjVal? "req"
+  let r : Ops.PduReq := ⟨← reqKindOfStr (← q.getObjValAs? String "kind"), ← getInt q "rid", ← getInt q "a", ← getInt q "b",
+    ← vbsOfJson (← q.getObjVal? "vbs")⟩
+  match Usm.generate cr c disco (← bytesOfJson (← j.getObjVal? "ctx_engine")) (← bytesOfJson (← j.getObjVal? "ctx_name")) r with
+  | none => pure Json.null
+  | some (p, md, dg) =>
+    pure (Json.mkObj [("datagram", toJson (toHex dg)), ("flags", toJson p.flags),
+      ("zeroed", toJson (toHex (Emit.v3Around { p with authParams := (if c.auth.isSome then Usm.zeros12 else p.authParams) } md))),
+      ("scoped", match Emit.scopedBytes (Usm.baseParams c disco (← bytesOfJson (← j.getObjVal? "ctx_engine")) (← bytesOfJson (← j.getObjVal? "ctx_name")) r) r with
+        | some sb => toJson (toHex sb) | none => Json.null)])
+
 def handle (j : Json) : Except String Json := do
   let op ← j.getObjValAs? String "op"
   match op with
@@ -573,6 +628,9 @@ def handle (j : Json) : Except String Json := do
   | "ops.run" => opsRun j
   | "cfg.run" => cfgRun j
   | "py.wrap" => pyWrap j
+  | "usm.incoming" => usmIncoming j
+  | "usm.outgoing" => usmOutgoing j
+  | "key.expand" => pure (toJson (toHex (Usm.expand (← bytesOfJson (← j.getObjVal? "pw")) (← getNat j "n"))))
   | "emit" => emitOp j
   | "conc.run" => concRun j
   | "disco.run" => discoRun j
